@@ -7,36 +7,72 @@ REPO_HOOK_COMMITS = ["51ce9be"]
 ENV = "export GOFLAGS=-mod=mod GOPROXY=off GOSUMDB=off GOTOOLCHAIN=local; "
 
 # id -> (engine, technique, level text, level note, design ref)
+S = "runtime monitoring, Engine S: "
+G = "runtime monitoring, Engine G: "
+T = "runtime monitoring, Engine T: "
 CHECKS = {
- "C01": ("sched", "runtime monitoring: start/end stamps from one atomic clock inside harness job bodies, checked after quiescence against the scenario's dependency lists; seeded perturbation at verif hook points",
-         "Held on every observed execution: order (dep ended ok before dependent started) and at-most-once over thousands of generated DAG scenarios per run; exploration, not proof - interleavings are sampled.",
-         "Trusted: the harness's job bodies and clock; the Go runtime. Interleavings reached = OS scheduling + hook perturbation.", "3/C01"),
- "C03": ("sched", "runtime monitoring: exact in-flight counter in job bodies, goroutine census from runtime.Stack while N bodies are held on a gate, N-party barrier after Goexit jobs (stuck-state detector decides)",
-         "Held on observed executions: in-flight high-water mark <= limit in every scenario; scheduler goroutines <= N+2 with up to 10^5 jobs; N-party barrier completes after 0/1/N/3N Goexit jobs.",
+ "C01": ("sched+gen", S+"start/end stamps from one atomic clock inside harness job bodies, checked after quiescence against the scenario's dependency lists, with seeded perturbation at verif hook points; " + G + "stub call log vs. the abstract program's dependencies (providers, predicates, element calls of End hooks) on freshly generated code",
+         "Held on every observed execution: a dependent never started before its dependency ended ok, no job/function ran twice; scheduler scenarios (DAGs with duplicate deps, late enqueue, both modes, N=1..64) and generated flows/parallels.",
+         "Trusted: harness bodies/stubs and their clock; the Go runtime. Interleavings reached = OS scheduling + hook perturbation + stub delays.", "3/C01"),
+ "C02": ("gen", G+"provenance-hash tokens through freshly generated flow code, compared call by call (arguments, multiplicity, Results) with a reference interpreter written from the statement; each abstract flow printed in 3 listing/option orders",
+         "Held on every observed execution of every generated flow (all spellings/value-type kinds of the grammar, concurrency default..64, delays).",
+         "Programs outside the generator's grammar are not reached; re-entrancy is exercised only through independent sequential executions (concurrent executions: see DESIGN limits).", "3/C02"),
+ "C03": ("sched+gen", S+"exact in-flight counter in job bodies, goroutine census from runtime.Stack while N bodies are held on a gate, N-party barrier after Goexit jobs decided by the stuck-state detector; " + G + "in-flight counter in stubs vs. the directive's limit",
+         "In-flight high-water mark <= limit in every execution; scheduler goroutines <= N+2 with up to 10^5 jobs; N-party barrier completes after 0/1/N/3N Goexit jobs.",
          "Census is one sample per wide scenario, made decisive by holding every running body on the gate.", "3/C03"),
- "C05": ("sched", "runtime monitoring: watchdog + stuck-state detector (three identical all-blocked goroutine dumps with a static harness clock) over scenario stress with hook perturbation",
-         "Every Enqueue/Wait returned in all explored scenarios (early failure + many enqueues, Goexit, cancellation at all plan points, N=1..64). A hang needing an interleaving never produced is missed.",
+ "C04": ("gen", G+"every execution runs under recover() in a child process whose death is attributed to its last case; returned error inspected with errors.As(*cff.PanicError) and Value compared with the value observed at the panicking stub",
+         "No panic escaped and no child died over all executions in which stubs panicked (6 kinds of values, every function role); returned errors matched observed failures.",
+         "panic(nil) excluded (statement says non-nil).", "3/C04"),
+ "C05": ("sched+gen", S+"watchdog + stuck-state detector (three identical all-blocked goroutine dumps with a static harness clock) over scenario stress with hook perturbation; " + G + "same detector around every generated-code execution incl. fault, panic and cancel scenarios",
+         "Every Enqueue/Wait/Flow/Parallel returned in all explored scenarios. A hang needing an interleaving never produced is missed.",
          "Liveness restated as 'no stuck state while a call is outstanding'; inconclusive watchdog expiries are reported, not failed.", "3/C05"),
- "C06": ("sched", "runtime monitoring: goroutine census after quiescence (NumGoroutine vs. baseline, then runtime.Stack filtered on goroutines created by the scheduler, stable over three dumps)",
-         "After every scenario (success, fail-fast, ContinueOnError, cancelled, prompt return with a task still running) the process returned to its goroutine baseline.",
+ "C06": ("sched+gen", S+"goroutine census after quiescence (NumGoroutine vs. baseline, then runtime.Stack filtered on goroutines created by the scheduler, stable over three dumps); " + G + "same census after every generated-code execution",
+         "After every execution (success, fail-fast, ContinueOnError, cancelled, prompt return with a task still running) the process returned to its goroutine baseline. Found F1 on the pinned tree (fixed).",
          "Leak verdict needs the same blocked scheduler goroutines in three dumps; anything else is inconclusive.", "3/C06"),
- "C07": ("sched", "runtime monitoring: returned error identity vs. unique per-job error values, invocation log, transitive-dependency closure computed from the scenario",
-         "Held on observed fail-fast executions: nil => all ran once ok and no certain cancellation; non-nil => errors.Is a job that actually failed or a context error; nothing downstream of a failure ran.",
-         "Scheduler level only so far (generated-code level arrives with Engine G).", "3/C07"),
- "C08": ("sched", "runtime monitoring: multierr.Errors(returned error) compared as a multiset of identities with the failed jobs; invocation log vs. transitive closure",
+ "C07": ("sched+gen", S+"returned error identity vs. unique per-job error values, invocation log, transitive closure from the scenario; " + G + "reference interpreter: failing sets of tasks (errors, panics), returned error matched against observed failing calls, Results sentinels, must-not-call sets",
+         "Held on observed fail-fast executions at scheduler and generated-code level.",
+         "Goexit scenarios excluded from error-identity clauses.", "3/C07"),
+ "C08": ("sched+gen", S+"multierr.Errors(returned error) compared as a multiset of identities with the failed jobs, invocation log vs. transitive closure; " + G + "Parallel programs with cff.ContinueOnError(expr): every function/element called exactly once, bijection between error entries and failing calls, expr=false behaves fail-fast",
          "Held on observed ContinueOnError executions incl. late enqueue after a dependency failed and chains of invalidation.",
-         "Scheduler level only so far.", "3/C08"),
- "C09": ("sched", "runtime monitoring: must-not-start sets derived structurally (depends on cancelling job / submitted after cancel() returned / all workers held until after cancel()), prompt-return via stuck-state detector, context marker check",
+         "With cancellation only the weaker 'context errors or distinct failed tasks' clause is judged.", "3/C08"),
+ "C09": ("sched+gen", S+"must-not-start sets derived structurally (depends on cancelling job / submitted after cancel() returned / all workers held until after cancel()), prompt return via stuck-state detector, context marker; " + G + "cancel before the call / inside a task / by helper / prompt-return gate on generated code",
          "Held on observed executions; tasks outside the must-not-start set are not judged (check-then-run window is legitimate).",
          "No timing window is used as a verdict.", "3/C09"),
- "C19": ("sched", "runtime monitoring: recording scheduler.Emitter at StateFlushFrequency=1ns, every report checked against the stated equations and harness-side submission counters",
+ "C10": ("gen", G+"exactly-once multiset of (index,element)/(key,value) tokens per collection, End hook start stamp vs. end stamps of all element calls, End hook never after a failed element",
+         "Held on every observed execution of generated Parallel programs (sizes nil/0/1/2/3/7/16/64/1000, index/no-index, ctx/err variants, named collection types, generic enclosing functions). Found F2 (fixed).",
+         "Scratch module is go 1.19 so that loop variables are per-loop, as in cff's own test module.", "3/C10"),
+ "C11": ("gen", G+"reference interpreter over predicate outcomes {true,false,panic} x task outcomes {ok,error,panic} with/without FallbackWith; 'predicate starts as soon as its own inputs are there' decided by a gate scenario + stuck-state detector",
+         "Held on every observed execution of generated flows with predicates/fallbacks.",
+         "Predicates are instrumented only through their stubs.", "3/C11"),
+ "C12": ("sched+gen", "Go race detector (-race -tags verif): Engine S in quiet mode (job bodies share no recorder; plain per-job slots) and Engine G in quiet mode (stubs without recorder) under failure/cancel/early-return scenarios; every WARNING: DATA RACE block parsed and deduplicated",
+         "No race report over the observed executions; the detector generalises each execution by happens-before.",
+         "Harness is written to add no happens-before edges of its own in quiet mode.", "3/C12"),
+ "C13": ("tool", T+"the cff binary built from the working tree run as a child process per package over Engine G programs, static multi-directive files and hazard templates in base/source-map x auto-instrument; oracle: no Go panic, positioned diagnostic on failure, outputs parse, package type-checks without the tag, AST scan for residual directives",
+         "Held on all explored inputs except the recorded known findings F4, F5, F10, F11 (identifier/package shadowing and nested directives); F2, F3, F6, F7 were found and fixed.",
+         "Known findings are keyed by (spelling feature, compiler message); a different failure is still reported.", "3/C13"),
+ "C14": ("tool", T+"random well-formed flows and every applicable single-defect mutation (12 kinds), each its own package; Slice/Map element/key/value type pairs over an 11-type lattice with the expected verdict computed by go/types.AssignableTo; observed: exit status, diagnostic naming the file, presence of *_gen.go",
+         "Every explored ill-formed directive rejected, every well-formed one accepted. Found F8 and F13 (fixed).",
+         "Each mutation introduces exactly one named defect by construction.", "3/C14"),
+ "C15": ("gen", G+"every argument expression of generated programs wrapped in a logging identity function (site, goroutine id, stamp): exactly once, in source order, on the caller's goroutine, before the first stub call; user variables named like generated identifiers carry the Params values",
+         "Held on every observed execution. Found F9 (fixed).",
+         "cff.Invoke's argument must be constant and is not wrapped.", "3/C15"),
+ "C16": ("tool", T+"(b) build constraints over {cff,a,b} (exhaustive to a nesting depth, sampled deeper; go:build, +build, both) with truth tables via go/build/constraint for all 8 assignments; (a) structural AST comparison of source and output with directive sites masked; (c) SHA-256 snapshot of the module before/after with random -file selections",
+         "Held on every explored file.",
+         "go.mod/go.sum are maintained by the go command the loader runs and are excluded from the footprint.", "3/C16"),
+ "C17": ("tool", T+"byte comparison of every output across fresh cff processes (base and source-map), against -file singleton/subset runs, and after adding in-package and external test files",
+         "All outputs byte-identical over the explored corpus.",
+         "File order inside a package is fixed by go list.", "3/C17"),
+ "C18": ("gen", G+"recording cff.Emitter implementations (1..3 WithEmitter options, nested EmitterStack) on instrumented generated programs; per execution and per invocation event counts, payload identity, ordering, and equality of what every stacked emitter received",
+         "Held on every observed execution.",
+         "Under -auto-instrument only bounds are judged (the statement does not fix which tasks cff instruments or their names).", "3/C18"),
+ "C19": ("sched", S+"recording scheduler.Emitter at StateFlushFrequency=1ns, every report checked against the stated equations and harness-side submission counters; generated-level emitters check the same equations on cff.SchedulerState",
          "Every one of the (10^5..10^7) reports per run satisfied the stated relations; found F1 (executing > Concurrency) on the pinned tree, fixed.",
          "Counters read inside Emit are conservative upper bounds.", "3/C19"),
 }
 
-PENDING = {}
-for i in [2,4,10,11,12,13,14,15,16,17,18,20]:
-    PENDING["C%02d" % i] = "check not built yet in this round (planned in DESIGN.md; engine under construction)"
+PENDING = {
+ "C20": "check not built yet in this round (planned in DESIGN.md section 3/C20: source-map vs base structural comparison, modifier vs base differential run)",
+}
 
 def main():
     checks = []
@@ -66,6 +102,10 @@ def main():
         "engines": [
             {"name": "sched", "path": "/verif/sched", "serves_properties": ["C01","C03","C05","C06","C07","C08","C09","C12","C19"],
              "kind_free_text": "scheduler package under generated scenario stress; boundary monitors in job bodies, Enqueue/Wait, state emitter; verif hooks for perturbation"},
+            {"name": "gen", "path": "/verif/g", "serves_properties": ["C01","C02","C03","C04","C05","C06","C07","C08","C09","C10","C11","C12","C15","C18"],
+             "kind_free_text": "abstract programs printed as cff-tagged packages, compiled by the cff binary built from the working tree, executed under scenarios against a reference interpreter (prog), runtime support (rt), runner (grun)"},
+            {"name": "tool", "path": "/verif/cmd/vcheck", "serves_properties": ["C13","C14","C16","C17"],
+             "kind_free_text": "the cff binary as observed system: exit status, stderr, files written, bytes/AST/type-check of outputs"},
         ],
         "checks": checks,
         "notes": "baseline_off_cmd: internal/tests/predicate TestPanicRecovered fails on the pinned toolchain before any change (BASELINE.json always_fail); everything else passes. Known findings and fixes: /verif/known_findings.jsonl.",
